@@ -823,6 +823,16 @@ class DAG(nx.DiGraph):
     #         """
     #         pass
 
+    def copy(self, as_view=False):
+        """
+        Returns a copy of the graph (see networkx.DiGraph.copy) which also keeps the
+        latent variables of this graph.
+        """
+        dag = super().copy(as_view=as_view)
+        if not as_view and isinstance(dag, DAG):
+            dag.latents = set(self.latents)
+        return dag
+
     def do(self, nodes, inplace=False):
         """
         Applies the do operator to the graph and returns a new DAG with the
